@@ -218,6 +218,28 @@ def program(rng, pid, shape=None, profile="full", nstmts=(0, 3), asserts=True, n
         if R.random() < 0.5:
             bld.edge(b_, x)
         entry, exit_ = e, x
+    elif shape == "twolatch":
+        # a loop head with TWO back edges (a body with a `continue`), the back edges inserted in either order; not in the
+        # default shape list (requested explicitly by the checks of the data-flow analyses)
+        e, h, b1, l1, l2, x = (bld.block(body()), bld.block([]), bld.block(body()), bld.block(body()), bld.block(body()), bld.block(body()))
+        bld.blocks[l1 - 1]["stmts"].append(bld.counter_step())
+        bld.edge(e, h)
+        g = bld.guard()
+        bld.blocks[b1 - 1]["stmts"].insert(0, {"op": "assume", "c": g})
+        bld.blocks[x - 1]["stmts"].insert(0, {"op": "assume", "c": negate(g)})
+        if R.random() < 0.5:
+            bld.edge(h, b1)
+            bld.edge(h, x)
+        else:
+            bld.edge(h, x)
+            bld.edge(h, b1)
+        branch(b1, l1, l2)
+        first, second = (l1, l2) if R.random() < 0.5 else (l2, l1)
+        bld.edge(first, h)
+        bld.edge(second, h)
+        if R.random() < 0.3:
+            bld.edge(R.choice([l1, l2]), x)
+        entry, exit_ = e, x
     elif shape == "unreachable":
         e, m, x, dead = bld.block(body()), bld.block(body()), bld.block(body()), bld.block(body())
         bld.edge(e, m)
